@@ -73,3 +73,15 @@ add("C18", "exploration",
     SIM_NOTE,
     "deterministic simulation: controlled process environment (argv / cwd / -d / tree) with I/O-trace and disk observation against the statement's grammar",
     "DESIGN.md section 4, C18")
+
+add("C13", "exploration",
+    "Histories check / renumber / check / renumber over one simulated disk with generated test files whose structure (which line is which test's id / title) the driver knows; reference rendering, idempotence, agreement of --check with the rewrite and a write monitor for --check. Honest note: no schedule or fault decides this property; the simulator contributes the histories, the monitor and replay.",
+    SIM_NOTE,
+    "deterministic simulation (degenerate, fault-free corner): model-based checking of operation histories over a simulated disk with write monitor",
+    "DESIGN.md section 4, C13")
+
+add("C14", "exploration",
+    "Sequences of 1-3 invocations with independent accepted versions and years over one simulated disk: after every invocation each file must equal the template rendered with that invocation's values in every marker slot. The property only fails when the markers written by one run are not recognised by the next, i.e. on histories.",
+    SIM_NOTE,
+    "deterministic simulation: durable-state histories (write by run i, read by run i+1) against a slot-template reference model",
+    "DESIGN.md section 4, C14")
